@@ -88,6 +88,10 @@ func (ex *Exec) registerIntrinsics() {
 		ex.assertOblN(a[0].(*Term), ex.str(a[1]), []string{ex.str(a[2]), ex.str(a[4])}, []*Term{a[3].(*Term), a[5].(*Term)})
 		return nil
 	}
+	I[T+"vAssertKF3"] = func(ex *Exec, fr *frame, a []V) V {
+		ex.assertOblN(a[0].(*Term), ex.str(a[1]), []string{ex.str(a[2]), ex.str(a[4]), ex.str(a[6])}, []*Term{a[3].(*Term), a[5].(*Term), a[7].(*Term)})
+		return nil
+	}
 	I[T+"vReach"] = func(ex *Exec, fr *frame, a []V) V {
 		ex.hooks.reached[ex.str(a[0])] = true
 		return nil
